@@ -261,6 +261,10 @@ func rfWidthRules(c *Ctx, r *Report, rule string) {
 	if rule == "" {
 		return
 	}
+	if !handlerStateless(c, newReport("scratch"), "x", "pkg/rf", "handleSUR") {
+		r.blockedBy("the handler keeps state between requests", rule)
+		return // reported by the statelessness rule; the model needs per-invocation variables
+	}
 	m := buildRfModel(c)
 	checkParseWidths(c, r, rule, m.f, c.fn("pkg/rf", "buildTaffif"))
 	fs := keyNarrowingFindings(c, m.f, m.req, []*ssa.Call{m.getOne})
@@ -273,6 +277,10 @@ func rfWidthRules(c *Ctx, r *Report, rule string) {
 
 func abmfWidthRules(c *Ctx, r *Report, rule string) {
 	if rule == "" {
+		return
+	}
+	if !handlerStateless(c, newReport("scratch"), "x", "pkg/abmf", "handleCCR") {
+		r.blockedBy("the handler keeps state between requests", rule)
 		return
 	}
 	m := buildAbmfModel(c)
